@@ -315,7 +315,7 @@ func vRun(op string, in M) M {
 	panic("unknown op " + op)
 }
 
-func init() { vWBNames["merkle.lp2"] = true }
+func init() { vWBNames["merkle.lp2"] = true; vNoRepeat["merkle.Big"] = true }
 
 func TestVerifDriver(t *testing.T) {
 	vMain(vRun, func(do func(string, M)) {
